@@ -82,6 +82,40 @@ def tableOf (j : Json) : List (String × Stmt) :=
       | _, _ => none)
   | _ => []
 
+/-- `"slots": {"class": "argparse_function", …}`: the kind under which the (possibly shared) file of a kind is kept -/
+def slotsOf (j : Json) : Kind → Kind := fun k =>
+  match j.getObjVal? "slots" with
+  | .ok sl => match PyAst.optStr sl (kindName k) with
+    | some n => match kindOf n with
+      | .ok k' => k'
+      | .error _ => k
+    | none => k
+  | .error _ => k
+
+/-- files as the harness sees them: per kind, the content of that kind's file -/
+def filesViewJ (f : Files) (slot : Kind → Kind) : Json :=
+  Json.mkObj (kinds.map (fun k => (kindName k, fileJ (f.get (slot k)))))
+
+/-- the requests of `_conform_filename`, kind by kind, each computed on the files as the previous kinds (with the emissions
+    known so far) left them -/
+def planLoop (E : Emitters Unit) (names : Json) (slot : Kind → Kind) : List Kind → Option Files → List (String × Json)
+  | [], _ => []
+  | k :: ks, none => (kindName k, Json.mkObj [("error", "not-reached")]) :: planLoop E names slot ks none
+  | k :: ks, some files =>
+    let p := pathsOf names k
+    let r : Json := match files.get (slot k) with
+      | none => Json.mkObj [("key", Json.str (kindName k ++ "|new")), ("new", Json.bool true)]
+      | some m => match findInAst p m with
+        | .error e => errJ e
+        | .ok f => match optFunctionType k f with
+          | .error e => errJ e
+          | .ok ft => Json.mkObj [("key", Json.str (emitKey k ft (optName k p))), ("new", Json.bool false), ("ft", optJ ft),
+              ("name", Json.str (optName k p)), ("found", foundJ f)]
+    let next : Option Files := match conform E k p () (files.get (slot k)) with
+      | .error _ => some files   -- (also when the emission of `k` is not in the table yet: the harness refines the plan kind by kind)
+      | .ok (file', _) => some (files.set (slot k) file')
+    (kindName k, r) :: planLoop E names slot ks next
+
 def ops : List (String × Handler) := [
   ("c12.find", fun j => do
     let m := moduleOf (← j.getObjVal? "module")
@@ -103,24 +137,15 @@ def ops : List (String × Handler) := [
     let names ← j.getObjVal? "names"
     let t ← kindOf (← getStr j "truth")
     let truthPath := searchOf false ((PyAst.optStr names (kindName t)).getD "")
-    let truth : Json := match files.get t with
+    let slot := slotsOf j
+    let truth : Json := match files.get (slot t) with
       | none => Json.mkObj [("error", "truth-file-missing")]
       | some m => match findInAst truthPath m with
         | .error e => errJ e
         | .ok f => match optFunctionType t f with
           | .error e => errJ e
           | .ok ft => Json.mkObj [("found", foundJ f), ("ft", optJ ft), ("name", Json.str (optName t truthPath))]
-    let reqs := kinds.map (fun k =>
-      let p := pathsOf names k
-      let r : Json := match files.get k with
-        | none => Json.mkObj [("key", Json.str (kindName k ++ "|new")), ("new", Json.bool true)]
-        | some m => match findInAst p m with
-          | .error e => errJ e
-          | .ok f => match optFunctionType k f with
-            | .error e => errJ e
-            | .ok ft => Json.mkObj [("key", Json.str (emitKey k ft (optName k p))), ("new", Json.bool false), ("ft", optJ ft),
-                ("name", Json.str (optName k p)), ("found", foundJ f)]
-      (kindName k, r))
+    let reqs := planLoop (tableEmitters (tableOf j)) names slot kinds (some files)
     return Json.mkObj [("truth", truth), ("requests", Json.mkObj reqs)]),
   ("c12.sync", fun j => do
     let files := filesOf (← j.getObjVal? "files")
@@ -128,9 +153,10 @@ def ops : List (String × Handler) := [
     let t ← kindOf (← getStr j "truth")
     let truthPath := searchOf false ((PyAst.optStr names (kindName t)).getD "")
     let E := tableEmitters (tableOf j)
-    let r := sync E t truthPath (pathsOf names) files
+    let slot := slotsOf j
+    let r := syncAt E t truthPath (pathsOf names) slot files
     return Json.mkObj [
-      ("files", filesJ r.files),
+      ("files", filesViewJ r.files slot),
       ("flags", Json.mkObj (r.flags.map (fun kf => (kindName kf.1, Json.bool kf.2)))),
       ("err", match r.err with | none => Json.null | some e => errJ e)])
 ]
